@@ -4,10 +4,12 @@ Every function here is an *assumption* about a dependency; the names actually us
 the evidence (`trusted_base`).
 """
 import ast
+import os
 from fractions import Fraction
 import z3
 
 from .sym import select as _sel
+from .sym import seq_sel as _ssel
 from .sym import (Sym, SInt, SReal, SBool, SSeq, CList, CDict, SRange, SOpt, SObj, SOpaque, CheckerError,
                   arith, compare, tz, tb, treal, wrap, fresh, Len, At, And, Or, Not, Implies, Iff, Ite, uf, ForAll,
                   strictly_increasing, member)
@@ -36,8 +38,89 @@ SUM_AXIOMS = [z3.ForAll([_a, _n], z3.Implies(_n <= 0, _SUM(_a, _n) == 0), patter
               z3.ForAll([_a, _n], z3.Implies(_n > 0, _SUM(_a, _n) == _SUM(_a, _n - 1) + z3.Select(_a, _n - 1)), patterns=[_SUM(_a, _n)])]
 
 
+_b = z3.Const("SUM.b", z3.ArraySort(z3.IntSort(), z3.RealSort()))
+_i = z3.Int("SUM.i")
+# extensionality of sums (provable by induction over n; assumed lemma, listed in the evidence when used)
+SUM_EXT = z3.ForAll([_a, _b, _n], z3.Implies(z3.ForAll([_i], z3.Implies(z3.And(0 <= _i, _i < _n), z3.Select(_a, _i) == z3.Select(_b, _i))),
+                                              _SUM(_a, _n) == _SUM(_b, _n)), patterns=[z3.MultiPattern(_SUM(_a, _n), _SUM(_b, _n))])
+
+
 def SUM(arr, n):
     return _SUM(arr, tz(n))
+
+
+# ACORR(a, M, t) := sum_{k < M - t} a[k] * a[k + t]  (0 for t >= M): one symbol for the lag-t autocorrelation sum of the
+# first M entries of an array, shared by the numpy models (dot of two slices of one array, FFT autocorrelation) and by
+# the contracts, so that "the same sum" is decided by congruence instead of sum reasoning
+ACORR = z3.Function("ACORR", z3.ArraySort(z3.IntSort(), z3.RealSort()), z3.IntSort(), z3.IntSort(), z3.RealSort())
+
+
+_ac_a = z3.Const("AC.a", z3.ArraySort(z3.IntSort(), z3.RealSort()))
+_ac_m, _ac_t = z3.Ints("AC.m AC.t")
+# empty sum: no pair of entries is t apart when t >= M
+ACORR_AXIOMS = [z3.ForAll([_ac_a, _ac_m, _ac_t], z3.Implies(_ac_t >= _ac_m, ACORR(_ac_a, _ac_m, _ac_t) == 0),
+                          patterns=[ACORR(_ac_a, _ac_m, _ac_t)])]
+
+
+def acorr(x, t):
+    """spec helper: lag-t autocorrelation sum of the sequence x"""
+    if isinstance(x, SSeq):
+        return wrap(ACORR(x.arr, tz(x.length), tz(t)))
+    if isinstance(x, CList):
+        tot = 0
+        n = len(x.items)
+        for k in range(max(0, n - int(t))):
+            tot = tot + x.items[k] * x.items[k + int(t)]
+        return tot
+    import numpy as np
+    x = np.asarray(x, dtype=float)
+    t = int(t)
+    return float(np.dot(x[:len(x) - t], x[t:])) if 0 <= t <= len(x) else 0.0
+
+
+def sum_of(n, f):
+    """spec helper: sum_{k < n} f(k), as SUM over a lambda-defined array (symbolic) or a Python sum (native)"""
+    if isinstance(n, Sym) or z3.is_expr(n):
+        from . import sym as _sym
+        k = z3.Int(fresh("sk"))
+        body = treal(f(SInt(k)))
+        A = z3.Const(fresh("sumarg"), z3.ArraySort(z3.IntSort(), z3.RealSort()))
+        # definitional axiom of the summand array, handed to the path condition with the formula that uses it
+        _sym.PENDING.append(z3.ForAll([k], z3.Implies(z3.And(0 <= k, k < tz(n)), z3.Select(A, k) == body), patterns=[z3.Select(A, k)]))
+        return wrap(_SUM(A, tz(n)))
+    t = 0.0
+    for k in range(int(n)):
+        t = t + f(k)
+    return t
+
+
+# circular autocorrelation through the FFT (assumed numpy contract): for x of length M zero padded to an even length P,
+# irfft(|rfft(x, P)|^2)[t] == sum_{k < M - t} x[k] x[k+t]   for 0 <= t <= P - M
+def _fft_models():
+    def rfft(self, interp, args, kwargs, node):
+        x, P = args[0], args[1]
+        if isinstance(x, CList):
+            x = self.to_sseq(interp, x, node)
+        return SOpaque("rfft", (x, P, 1))
+
+    def irfft(self, interp, args, kwargs, node):
+        v = args[0]
+        if not (isinstance(v, SOpaque) and v.tag == "rfft" and v.payload[2] == "abs2"):
+            interp.err(node, "np.fft.irfft of something that is not |rfft(x, n)|**2")
+        x, P, _ = v.payload
+        ctx = interp.ctx
+        # irfft of a spectrum of n//2+1 points has length 2*(n//2): equal to P only for even P
+        outlen = arith("*", 2, arith("//", P, 2))
+        C = SSeq.fresh("acorr", "ndarray", "real")
+        C.length = outlen
+        M = x.length
+        t = z3.Int(fresh("t"))
+        body = ACORR(x.arr, tz(M), t)
+        ctx._add(z3.ForAll([t], z3.Implies(z3.And(0 <= t, t <= tz(P) - tz(M), tz(P) % 2 == 0, tz(P) >= tz(M)), z3.Select(C.arr, t) == body),
+                           patterns=[z3.Select(C.arr, t)]))
+        return C
+    return rfft, irfft
+
 
 
 def kind_of(v):
@@ -363,6 +446,9 @@ class Lib:
             interp.err(node, "comprehension element of kind %s over a symbolic iterable" % type(v).__name__)
         ctx = interp.ctx
         name = fresh("lam")
+        if os.environ.get("PYVC_LAMBDA"):
+            seq = SSeq(n, z3.Lambda([k], body), kind, ek, z3.Lambda([k], nbody) if nbody is not None else None)
+            return seq
         A = z3.Const(name, z3.ArraySort(z3.IntSort(), body.sort()))
         rng = z3.And(0 <= k, k < tz(n))
         ctx._add(z3.ForAll([k], z3.Implies(rng, z3.Select(A, k) == body), patterns=[z3.Select(A, k)]))
@@ -584,15 +670,17 @@ class Lib:
                 a, b = self.slice_bounds(interp, n, lo, hi, st, node)
                 ln = Ite(compare(">", b, a), arith("-", b, a), 0)
                 k = z3.Int(fresh("sl"))
-                arr = z3.Lambda([k], _sel(obj.arr, k + tz(a)))
-                none = z3.Lambda([k], _sel(obj.none, k + tz(a))) if obj.none is not None else None
-                return SSeq(ln, arr, obj.kind, obj.ekind, none)
+                arr = z3.Lambda([k], _ssel(obj, 'arr', k + tz(a)))
+                none = z3.Lambda([k], _ssel(obj, 'none', k + tz(a))) if obj.none is not None else None
+                out = SSeq(ln, arr, obj.kind, obj.ekind, none)
+                out.slice_of = (obj.arr, obj.length, a, b)
+                return out
             if isinstance(st, int) and st > 1 and (lo is None or isinstance(lo, (int, SInt))) and hi is None:
                 a, b = self.slice_bounds(interp, n, lo, hi, None, node)
                 ln = Ite(compare(">", b, a), arith("+", arith("//", arith("-", arith("-", b, a), 1), st), 1), 0)
                 k = z3.Int(fresh("sl"))
-                arr = z3.Lambda([k], _sel(obj.arr, k * st + tz(a)))
-                none = z3.Lambda([k], _sel(obj.none, k * st + tz(a))) if obj.none is not None else None
+                arr = z3.Lambda([k], _ssel(obj, 'arr', k * st + tz(a)))
+                none = z3.Lambda([k], _ssel(obj, 'none', k * st + tz(a))) if obj.none is not None else None
                 return SSeq(ln, arr, obj.kind, obj.ekind, none)
             if isinstance(st, SInt) and hi is None:
                 # a[lo::st] with a symbolic positive step: k-th element is a[lo + k*st]
@@ -603,8 +691,8 @@ class Lib:
                 ln = Ite(compare(">", b, a), arith("+", arith("//", arith("-", arith("-", b, a), 1), st), 1), 0)
                 k = z3.Int(fresh("sl"))
                 idx = tz(arith("+", a, arith("*", SInt(k), st)))
-                arr = z3.Lambda([k], _sel(obj.arr, idx))
-                none = z3.Lambda([k], _sel(obj.none, idx)) if obj.none is not None else None
+                arr = z3.Lambda([k], _ssel(obj, 'arr', idx))
+                none = z3.Lambda([k], _ssel(obj, 'none', idx)) if obj.none is not None else None
                 return SSeq(ln, arr, obj.kind, obj.ekind, none)
             if st == -1:
                 # a[lo:hi:-1]
@@ -623,8 +711,8 @@ class Lib:
                     pass
                 ln = Ite(compare(">", a, b), arith("-", a, b), 0)
                 k = z3.Int(fresh("sl"))
-                arr = z3.Lambda([k], _sel(obj.arr, tz(a) - k))
-                none = z3.Lambda([k], _sel(obj.none, tz(a) - k)) if obj.none is not None else None
+                arr = z3.Lambda([k], _ssel(obj, 'arr', tz(a) - k))
+                none = z3.Lambda([k], _ssel(obj, 'none', tz(a) - k)) if obj.none is not None else None
                 return SSeq(ln, arr, obj.kind, obj.ekind, none)
         interp.err(node, "slice %r[%r:%r:%r]" % (type(obj).__name__, lo, hi, st))
 
@@ -683,7 +771,7 @@ class Lib:
                     interp.err(node, "masked store of a non-scalar")
                 k = z3.Int(fresh("ms"))
                 conv = {"int": tz, "real": treal, "bool": tb}[obj.ekind]
-                obj.arr = z3.Lambda([k], z3.If(_sel(idx.arr, k), conv(v), _sel(obj.arr, k)))
+                obj.arr = z3.Lambda([k], z3.If(_ssel(idx, 'arr', k), conv(v), _ssel(obj, 'arr', k)))
                 return
         if isinstance(obj, CList):
             if isinstance(idx, int):
@@ -736,12 +824,12 @@ class Lib:
                 if same is not True:
                     if same is False or not interp.ctx.decide(tb(same), "ValueError", node):
                         raise PyRaise("ValueError", "could not broadcast", node)
-                newv = _sel(v.arr, k - tz(a))
+                newv = _ssel(v, 'arr', k - tz(a))
                 if obj.ekind == "real" and v.ekind == "int":
                     newv = z3.ToReal(newv)
             else:
                 interp.err(node, "slice store of %r" % (v,))
-            obj.arr = z3.Lambda([k], z3.If(inside, newv, _sel(obj.arr, k)))
+            obj.arr = z3.Lambda([k], z3.If(inside, newv, _ssel(obj, 'arr', k)))
             return
         if isinstance(obj, CList) and all(x is None or isinstance(x, int) for x in (lo, hi, st)):
             idxs = list(range(len(obj.items)))[lo:hi:st]
@@ -856,6 +944,8 @@ class Lib:
         return None
 
     def binop_ext(self, interp, op, a, b, node):
+        if op == "**" and isinstance(a, SOpaque) and a.tag == "rfft" and a.payload[2] == "abs" and b == 2:
+            return SOpaque("rfft", (a.payload[0], a.payload[1], "abs2"))
         if op in ("|", "&", "-") and isinstance(a, SOpaque) and isinstance(b, SOpaque) and a.tag == "set" and b.tag == "set":
             if op == "|":
                 return SOpaque("set", list(a.payload) + [x for x in b.payload if x not in a.payload])
@@ -920,7 +1010,7 @@ class Lib:
             total = arith("+", total, p.length)
 
         def sel(p, idx):
-            t = _sel(p.arr, idx)
+            t = _ssel(p, 'arr', idx)
             return z3.ToReal(t) if ek == "real" and p.ekind == "int" else t
         body = sel(parts[-1], k - tz(offs[-1]))
         for p, o, nxt in zip(reversed(parts[:-1]), reversed(offs[:-1]), reversed(offs[1:])):
@@ -928,7 +1018,7 @@ class Lib:
         none = None
         if any(p.none is not None for p in parts):
             def nsel(p, idx):
-                return _sel(p.none, idx) if p.none is not None else z3.BoolVal(False)
+                return _ssel(p, 'none', idx) if p.none is not None else z3.BoolVal(False)
             nb = nsel(parts[-1], k - tz(offs[-1]))
             for p, o, nxt in zip(reversed(parts[:-1]), reversed(offs[:-1]), reversed(offs[1:])):
                 nb = z3.If(k < tz(nxt), nsel(p, k - tz(o)), nb)
@@ -1291,6 +1381,8 @@ class Lib:
         interp.err(node, "abs(%r)" % (x,))
 
     def unary_ext(self, interp, name, x, node):
+        if name == "abs" and isinstance(x, SOpaque) and x.tag == "rfft" and x.payload[2] == 1:
+            return SOpaque("rfft", (x.payload[0], x.payload[1], "abs"))
         return NotImplemented
 
     def truth_ext(self, interp, v, node):
@@ -1490,8 +1582,8 @@ class Lib:
             i = z3.Int(fresh("i"))
             ctx.assume(wrap(z3.ForAll([i], z3.Implies(z3.And(0 <= i, i < tz(n)),
                                                      z3.And(0 <= pos(i), pos(i) < tz(u.length),
-                                                            _sel(u.arr, pos(i)) == tz(At(p, SInt(i))))))))
-            alts.append(z3.And(which(j) == pi, 0 <= src(j), src(j) < tz(n), tz(At(p, SInt(src(j)))) == _sel(u.arr, j)))
+                                                            _ssel(u, 'arr', pos(i)) == tz(At(p, SInt(i))))))))
+            alts.append(z3.And(which(j) == pi, 0 <= src(j), src(j) < tz(n), tz(At(p, SInt(src(j)))) == _ssel(u, 'arr', j)))
         ctx.assume(wrap(z3.ForAll([j], z3.Implies(z3.And(0 <= j, j < tz(u.length)), z3.Or(*alts)))))
         u.skolem = {"which": which, "src": src}
         return u
@@ -1527,7 +1619,7 @@ class Lib:
             srcs.append(src)
             ctx.assume(wrap(z3.ForAll([j], z3.Implies(z3.And(0 <= j, j < tz(u.length)),
                                                      z3.And(0 <= src(j), src(j) < tz(Len(p)),
-                                                            tz(At(p, SInt(src(j)))) == _sel(u.arr, j))))))
+                                                            tz(At(p, SInt(src(j)))) == _ssel(u, 'arr', j))))))
         pos = z3.Function(fresh("ipos"), z3.IntSort(), z3.IntSort())
         i0 = z3.Int(fresh("i"))
         others = parts[1:]
@@ -1535,7 +1627,7 @@ class Lib:
         hyp = [z3.And(0 <= iv, iv < tz(Len(p)), tz(At(p, SInt(iv))) == tz(At(parts[0], SInt(i0)))) for iv, p in zip(ivars, others)]
         ctx.assume(wrap(z3.ForAll([i0] + ivars, z3.Implies(z3.And(0 <= i0, i0 < tz(Len(parts[0])), *hyp),
                                                           z3.And(0 <= pos(i0), pos(i0) < tz(u.length),
-                                                                 _sel(u.arr, pos(i0)) == tz(At(parts[0], SInt(i0))))))))
+                                                                 _ssel(u, 'arr', pos(i0)) == tz(At(parts[0], SInt(i0))))))))
         u.skolem = {"src": srcs, "pos": pos}
         return u
 
@@ -1558,17 +1650,17 @@ class Lib:
         k, k2 = z3.Int(fresh("k")), z3.Int(fresh("k"))
         n = tz(ia.length)
         ctx.assume(wrap(z3.ForAll([k], z3.Implies(z3.And(0 <= k, k < n), z3.And(
-            0 <= _sel(ia.arr, k), _sel(ia.arr, k) < tz(Len(a)),
-            0 <= _sel(ib.arr, k), _sel(ib.arr, k) < tz(Len(b)),
-            tz(At(a, SInt(_sel(ia.arr, k)))) == tz(At(b, SInt(_sel(ib.arr, k)))))))))
+            0 <= _ssel(ia, 'arr', k), _ssel(ia, 'arr', k) < tz(Len(a)),
+            0 <= _ssel(ib, 'arr', k), _ssel(ib, 'arr', k) < tz(Len(b)),
+            tz(At(a, SInt(_ssel(ia, 'arr', k)))) == tz(At(b, SInt(_ssel(ib, 'arr', k)))))))))
         ctx.assume(wrap(z3.ForAll([k, k2], z3.Implies(z3.And(0 <= k, k < k2, k2 < n), z3.And(
-            _sel(ia.arr, k) < _sel(ia.arr, k2), _sel(ib.arr, k) < _sel(ib.arr, k2))))))
+            _ssel(ia, 'arr', k) < _ssel(ia, 'arr', k2), _ssel(ib, 'arr', k) < _ssel(ib, 'arr', k2))))))
         pos = z3.Function(fresh("cpos"), z3.IntSort(), z3.IntSort())
         i, j = z3.Int(fresh("i")), z3.Int(fresh("j"))
         ctx.assume(wrap(z3.ForAll([i, j], z3.Implies(z3.And(0 <= i, i < tz(Len(a)), 0 <= j, j < tz(Len(b)),
                                                             tz(At(a, SInt(i))) == tz(At(b, SInt(j)))),
-                                                     z3.And(0 <= pos(i), pos(i) < n, _sel(ia.arr, pos(i)) == i,
-                                                            _sel(ib.arr, pos(i)) == j)))))
+                                                     z3.And(0 <= pos(i), pos(i) < n, _ssel(ia, 'arr', pos(i)) == i,
+                                                            _ssel(ib, 'arr', pos(i)) == j)))))
         vals = self.fancy_index(interp, self.f_list(interp, [a], {}, node) if isinstance(a, SRange) else a, ia, node)
         ia.skolem = {"ib": ib, "pos": pos}
         return (vals, ia, ib)
@@ -1740,6 +1832,16 @@ class Lib:
         a, b = args
         if isinstance(a, SCALAR) or isinstance(b, SCALAR):
             return interp.binop("*", a, b, node)
+        sa, sb = getattr(a, "slice_of", None), getattr(b, "slice_of", None)
+        if sa is not None and sb is not None and sa[0].eq(sb[0]) and a.ekind == "real":
+            # x[0:M-n].dot(x[n:M]) with 0 <= n <= M == len(x): the lag-n autocorrelation sum, by definition of ACORR
+            base, blen, a0, a1 = sa
+            _, _, b0, b1 = sb
+            ctx = interp.ctx
+            ok = And(compare("==", a0, 0), compare("==", b1, blen), compare("==", arith("-", a1, a0), arith("-", b1, b0)),
+                     compare(">=", b0, 0), compare("<=", b0, blen))
+            if ok is True or (ok is not False and ctx.implied(tb(ok))):
+                return wrap(ACORR(base, tz(blen), tz(b0)))
         prod = self.elementwise(interp, lambda x, y: interp.binop("*", x, y, node), a, b, node)
         return self.f_sum(interp, [prod], {}, node)
 
@@ -1752,7 +1854,7 @@ class Lib:
         if isinstance(x, SSeq):
             k = z3.Int(fresh("df"))
             n = Ite(compare(">", x.length, 0), arith("-", x.length, 1), 0)
-            return SSeq(n, z3.Lambda([k], _sel(x.arr, k + 1) - _sel(x.arr, k)), "ndarray", x.ekind)
+            return SSeq(n, z3.Lambda([k], _ssel(x, 'arr', k + 1) - _ssel(x, 'arr', k)), "ndarray", x.ekind)
         interp.err(node, "np.diff(%r)" % (x,))
 
     def f_np__min(self, interp, args, kwargs, node):
@@ -2064,7 +2166,7 @@ def _copy_seq(obj):
 
 _EPS = SReal(z3.Real("float.eps"))
 _TINY = SReal(z3.Real("float.tiny"))
-FLOAT_AXIOMS = [z3.Real("float.tiny") > 0, z3.Real("float.tiny") < z3.Real("float.eps"), z3.Real("float.eps") < 1]
+FLOAT_AXIOMS = [z3.Real("float.tiny") > 0, z3.Real("float.tiny") < z3.Real("float.eps"), z3.Real("float.eps") < 1] + ACORR_AXIOMS
 
 
 for _nm in ("sqrt", "exp", "log", "sin", "cos", "tan", "sinh", "cosh", "tanh", "arcsin", "arccos", "arctan",
@@ -2177,3 +2279,6 @@ def _binop_ext2(self, interp, op, a, b, node):
 
 
 Lib.binop_ext = _binop_ext2
+
+
+Lib.f_np__fft__rfft, Lib.f_np__fft__irfft = _fft_models()
